@@ -22,7 +22,8 @@ from ..strdom import Str, Hole, SELF, lit
 from .C01 import unique_guard
 
 TECHNIQUE = ('static analysis: effect extraction of the market generators; guard-vocabulary check of the aggregation loops; '
-             'polynomial identities (symbolic sums over supplier / holder collections) normalised to zero')
+             'polynomial identities (symbolic sums over supplier / holder collections) normalised to zero; truncating-break detection on '
+             'the effect traces; the late-creation clause of C08.R1 recorded as R1')
 EXPLANATION = (
     'The market generators are interpreted abstractly. The demand aggregation must range over the whole currency zone and may '
     'skip a sector only for a listed reason; the variable summed and the variable charged must coincide; SUP := DEM; the '
@@ -245,6 +246,16 @@ def run(prog, check):
                     from ..algebra import normalize
                     red = normalize(red, unique_guard)
                     ok = red.is_zero()
+            # the variable that is given the issuer's supply is the market's own supply variable - the one its constructor created and
+            # that is reported as the market's supply (a differently spelled name leaves that one empty: supply 0 against demand)
+            ctor_sup = {e_.name.key() for e_ in it.effects if e_.phase == 'ctor' and e_.kind == 'def' and e_.role == SELF and e_.name.startswith_lit('SUP_')}
+            if sup_self and ctor_sup:
+                same_nm = sup_self[-1].name.key() in ctor_sup
+                check.ob('C04.R3', '%s::market-supply-variable-is-the-declared-one' % ukey, same_nm, sup_self[-1].where,
+                         'the supply defined at generation is the variable the constructor declared' if same_nm else
+                         'generation defines %s, the constructor declared %s: the declared supply variable stays empty, so supply does not '
+                         'equal demand for this market' % (sup_self[-1].name.show(), ', '.join(sorted(str(k_) for k_ in ctor_sup))[:80]),
+                         'two countries sharing a currency, each with a deposit market')
             check.ob('C04.R3', '%s::issuer-supply-equals-demand' % ukey, ok, m.where,
                      'market supply = issuer supply = total demand as polynomials' if ok else
                      'issuer / market supply is not tied to total demand', 'any holder of the asset')
@@ -303,7 +314,7 @@ def run(prog, check):
         from . import C08 as _c08
         b08 = Borrowed(check, lambda rule, key: rule == 'C08.R1' and '::creates(' in key, 'C04.R1',
                        'the market declared before the sector whose demand variable is created late')
-        _c08.run(prog, b08)
+        b08.run_lender(_c08, prog)
     check.floor('C04.R1', 9)
     check.floor('C04.R2', 2)
     check.floor('C04.R3', 6)
